@@ -290,6 +290,132 @@ def check_refs(sp, ctx, what, when):
             assert ctx.refs[i]() is not None, 'harness lost handler %d (%s) %s' % (i, st, when)
 
 
+# ------------------------------------------------------------------------------------------ deferred relays
+@event_handler('ev', 'on_add', 'on_remove')
+class R:
+    """A handler component that defines on_add / on_remove: while dispatching is disabled the World defers these
+    calls (relays), and a pending on_remove relay is then the only thing that still refers to a removed component."""
+
+    def __init__(self, log, idx):
+        self.log, self.idx = log, idx
+
+    def ev(self, log, tag):
+        log.append(('ev', None if self is None else self.idx, tag))
+
+    def on_add(self, entity, world):
+        self.log.append(('on_add', self.idx, entity))
+
+    def on_remove(self, entity, world):
+        self.log.append(('on_remove', self.idx, entity))
+
+
+ROUTES = ['stays', 'remove_component', 'delete_entity(immediate)', 'delete_entity + process()']
+
+
+def h_relay(sp, k=2):
+    """World only.  k handler components (with on_add/on_remove) of distinct entities; while dispatching is disabled
+    they are removed by a route of their own with - unless the program keeps a reference - the World holding the
+    only strong reference; ordinary events are queued around the removals; then dispatching is enabled."""
+    log = []
+    w = World()
+    strong, refs, ents = {}, {}, {}
+    late = [bool(sp.flag('created-while-disabled[r%d]' % i)) for i in range(k)]
+    keep = [bool(sp.flag('program-keeps[r%d]' % i)) for i in range(k)]
+    route = [sp.pick(ROUTES, 'route[r%d]' % i) for i in range(k)]
+    ev_before = bool(sp.flag('event-queued-before-the-removals'))
+    ev_after = bool(sp.flag('event-queued-after-the-removals'))
+
+    def create(i):
+        ents[i] = w.create_entity(R(log, i))
+        refs[i] = weakref.ref(w.get_component(ents[i], R))
+        if keep[i]:
+            strong[i] = w.get_component(ents[i], R)
+
+    for i in range(k):
+        if not late[i]:
+            create(i)
+    w.dispatch_enabled = False
+    sp.note('world.dispatch_enabled = False')
+    del log[:]
+    for i in range(k):
+        if late[i]:
+            create(i)
+            sp.cover('created-while-disabled')
+    tags = []
+    if ev_before:
+        w.dispatch('ev', log, 'before')
+        tags.append('before')
+    removed = set()
+    for i in range(k):
+        sp.note('r%d (%s%s): %s' % (i, 'kept by the program' if keep[i] else 'held by the World only',
+                                  ', created while disabled' if late[i] else '', route[i]))
+        if route[i] == 'remove_component':
+            w.remove_component(ents[i], R)
+        elif route[i] == 'delete_entity(immediate)':
+            w.delete_entity(ents[i], immediate=True)
+        elif route[i] == 'delete_entity + process()':
+            w.delete_entity(ents[i])
+            w.process()
+        else:
+            continue
+        removed.add(i)
+        if not keep[i]:
+            sp.cover('removed-while-disabled-world-only')
+    if ev_after:
+        w.dispatch('ev', log, 'after')
+        tags.append('after')
+    if log:
+        sp.fail('runs-while-disabled', 'callbacks ran while dispatching was disabled: %r' % (log,))
+    del log[:]
+    sp.note('world.dispatch_enabled = True')
+    try:
+        w.dispatch_enabled = True
+    except Exception as ex:     # noqa
+        msg = repr(ex)
+        del ex
+        sp.fail('enable-raises', 'world.dispatch_enabled = True raised %s; delivered so far: %r' % (msg, log))
+    sp.check(all(x[1] is not None for x in log), 'none-receiver', 'a callback ran with receiver None: %r' % (log,))
+    for i in range(k):
+        n = sum(1 for x in log if x[0] == 'on_remove' and x[1] == i)
+        if i in removed:
+            sp.check(n == 1, 'relay-lost', 'r%d was removed while dispatching was disabled; its on_remove was '
+                     'delivered %d times when dispatching was enabled (log %r)' % (i, n, log))
+            sp.check(('on_remove', i, ents[i]) in log, 'relay-lost', 'on_remove of r%d with wrong entity' % i)
+            sp.cover('on_remove-relayed')
+        else:
+            sp.check(n == 0, 'spurious-call', 'r%d is still attached but got on_remove' % i)
+            for tag in tags:
+                m = sum(1 for x in log if x == ('ev', i, tag))
+                sp.check(m == 1, 'survivor-missed', 'the event queued %s the removals reached the attached handler r%d '
+                         '%d times (log %r)' % (tag, i, m, log))
+                sp.cover('queued-event-delivered')
+    # nothing but the dispatcher / a delivered relay refers to the removed, not kept handlers any more
+    for i in range(k):
+        if i in removed and not keep[i]:
+            if refs[i]() is not None:
+                gc.collect()
+            sp.check(refs[i]() is None, 'kept-alive', 'r%d is still alive after its on_remove relay was delivered' % i)
+            sp.cover('dead-after-relay')
+        else:
+            assert refs[i]() is not None, 'harness lost r%d' % i
+    # later dispatches work normally
+    del log[:]
+    try:
+        w.dispatch('ev', log, 'later')
+    except Exception as ex:     # noqa
+        msg = repr(ex)
+        del ex
+        sp.fail('dispatch-raises', 'a later dispatch raised %s' % msg)
+    sp.check(all(x[1] is not None for x in log), 'none-receiver', 'a callback ran with receiver None: %r' % (log,))
+    for i in range(k):
+        m = sum(1 for x in log if x == ('ev', i, 'later'))
+        if i not in removed:
+            sp.check(m == 1, 'survivor-missed', 'a later dispatch reached the attached handler r%d %d times' % (i, m))
+        elif not keep[i]:
+            sp.check(m == 0, 'called-after-gone', 'a later dispatch reached the dead handler r%d' % i)
+    sp.done()
+
+
 def h_weak(sp, k=2, world=True, cfgs=None, diag=False, drops=True, defer=(0,)):
     table = WORLD_CFG if world else DISPATCHER_CFG
     allowed = list(range(N_CLASSIC[bool(world)])) if cfgs is None else list(cfgs)
@@ -344,7 +470,10 @@ def h_weak(sp, k=2, world=True, cfgs=None, diag=False, drops=True, defer=(0,)):
     sp.done()
 
 
+RELAY_TAGS = ['created-while-disabled', 'removed-while-disabled-world-only', 'on_remove-relayed',
+              'queued-event-delivered', 'dead-after-relay']
 HARNESSES = {
+    'relay': dict(fn=h_relay, nontrivial=RELAY_TAGS[1:], required=RELAY_TAGS),
     'weak': dict(fn=h_weak,
                  nontrivial=['died-during-dispatch', 'detached-alive-during-dispatch', 'survivors-and-dead'],
                  required=['kill-relation', 'died-during-dispatch', 'died-before-its-turn',
@@ -360,6 +489,7 @@ DEFER_REQ = NOCLEAR_REQ + ['died-during-deferred-release', 'cleared-during-dispa
 
 TIERS = {
     'quick': [
+        ('relay', dict(k=2)),
         ('weak', dict(k=2, world=False, diag=True)),
         ('weak', dict(k=2, world=True, diag=True)),
         ('weak', dict(k=3, world=False, drops=False)),
@@ -374,6 +504,7 @@ TIERS = {
         ('weak', dict(k=3, world=True, cfgs=[0, 8, 9], drops=False), {'required': REPL_REQ}),
     ],
     'thorough': [
+        ('relay', dict(k=3)),
         ('weak', dict(k=3, world=False, diag=True, drops=False)),
         ('weak', dict(k=3, world=False)),
         ('weak', dict(k=2, world=True, diag=True)),
@@ -432,6 +563,11 @@ ASSUMPTIONS = [
     'which clear() is called every handler counts as made to disappear in that dispatch',
     'handler objects define __hash__ as a per-slot constant (legal Python) so that listener order is '
     'reproducible; gc.collect() is only called when a weak reference is not already dead',
+    'relay harness: a handler component removed while dispatching is disabled gets its deferred on_remove exactly '
+    'once, on a live receiver, when dispatching is enabled (the pending relay may keep it alive until then), the '
+    'enabling assignment raises nothing, the other queued events reach the attached handlers, and afterwards the '
+    'removed handler is dead unless the program holds it; whether a removed handler still sees events queued before '
+    'its removal is not asserted',
     'reference counting CPython (the statement is about dropping the last reference)',
 ]
 OUTSIDE = ['more than 3 handlers of one event', 'handlers kept alive only by reference cycles that gc has not '
